@@ -299,10 +299,24 @@ EolHtmlLemma ==
 \* C14, third clause, on HTML: a missing final line ending changes nothing but trailing white space of raw HTML
 RECURSIVE StripTail(_)
 StripTail(h) == IF h # <<>> /\ h[Len(h)] \in {LF, CR, SP, TAB} THEN StripTail(SubSeq(h, 1, Len(h) - 1)) ELSE h
+\* the same inside containers: raw HTML that ends an item or a quote is followed by "</li>" / "</blockquote>" (nothing else the mapping
+\* emits can put significant white space there: code ends in "</code></pre>", a paragraph's trailing white space is the property's own exception)
+CloseLi == <<60, 47, 108, 105, 62>>
+CloseBq == <<60, 47, 98, 108, 111, 99, 107, 113, 117, 111, 116, 101, 62>>
+StartsAt(h, i, pat) == i + Len(pat) - 1 <= Len(h) /\ SubSeq(h, i, i + Len(pat) - 1) = pat
+RECURSIVE WsRunEnd(_, _)
+WsRunEnd(h, i) == IF i <= Len(h) /\ h[i] \in {LF, CR, SP, TAB} THEN WsRunEnd(h, i + 1) ELSE i
+NormTail(h) == LET RECURSIVE F(_)
+                   F(i) == IF i > Len(h) THEN <<>>
+                           ELSE IF h[i] \in {LF, CR, SP, TAB}
+                                THEN LET j == WsRunEnd(h, i) IN
+                                     IF j > Len(h) \/ StartsAt(h, j, CloseLi) \/ StartsAt(h, j, CloseBq) THEN F(j) ELSE SubSeq(h, i, j - 1) \o F(j)
+                                ELSE <<h[i]>> \o F(i + 1)
+               IN F(1)
 FinalNewlineHtmlLemma ==
   (doc # <<>> /\ doc[Len(doc)][Len(doc[Len(doc)])] \notin {LF, CR}) =>
      LET a == HtmlOf(Src)  b == HtmlOf(Src \o <<LF>>) IN
-     Len(a) = Len(b) /\ \A i \in 1..Len(a) : StripTail(a[i]) = StripTail(b[i])
+     Len(a) = Len(b) /\ \A i \in 1..Len(a) : NormTail(a[i]) = NormTail(b[i])
 \* C07 at model level: the HTML of a document without raw HTML is well-formed over the fixed vocabulary, every attribute value is
 \* quoted and escaped, every ampersand begins a character reference - for the MODEL's mapping (C10 binds the code to the mapping)
 RECURSIVE HasRawInline(_), HasRaw(_, _, _)
